@@ -31,7 +31,8 @@ var pureExterns = map[string]bool{
 	"errors.New": true, "fmt.Sprintf": true, "fmt.Sprint": true, "fmt.Errorf": true, "fmt.Sprintln": true,
 	"fmt.Println": true, "fmt.Printf": true, "fmt.Print": true,
 	"math/bits.Len": true, "math/bits.Len64": true,
-	"encoding/hex.EncodeToString": true,
+	"encoding/hex.EncodeToString": true, "encoding/hex.DecodeString": true,
+	"regexp.MustCompile": true, "regexp.Regexp.ReplaceAllString": true, "regexp.Regexp.MatchString": true, "regexp.Regexp.FindStringSubmatch": true,
 	"math.Float32frombits": true, "math.Float32bits": true, "math.Float64frombits": true, "math.Float64bits": true,
 	"math.Abs": true, "math.Pow": true, "math.Floor": true, "math.Round": true, "math.Trunc": true, "math.Exp": true, "math.IsNaN": true, "math.IsInf": true,
 	"github.com/x448/float16.Frombits": true, "github.com/x448/float16.Fromfloat32": true,
